@@ -17,11 +17,11 @@ import (
 
 // PairCase is a replayable (old,new) build pair.
 type PairCase struct {
-	Seed  uint64         `json:"seed"`
-	Opts  wvlib.PairOpts `json:"opts"`
-	Comp  Comp           `json:"comp"`
-	Slice bool           `json:"slice,omitempty"` // source pool returns adversarially short reads
-	Rel   []string       `json:"relations,omitempty"`
+	Seed  uint64                 `json:"seed"`
+	Opts  wvlib.PairOpts         `json:"opts"`
+	Comp  Comp                   `json:"comp"`
+	Slice bool                   `json:"slice,omitempty"` // source pool returns adversarially short reads
+	Rel   []string               `json:"relations,omitempty"`
 	Extra map[string]interface{} `json:"extra,omitempty"`
 }
 
@@ -34,13 +34,13 @@ func (c *PairCase) gen() (*wvlib.Build, *wvlib.Build) {
 
 // PairEval holds everything observed on one pair.
 type PairEval struct {
-	Res                                   *DiffResult
-	ImplMsgs, ImplSigs, ImplCounts        string
+	Res                                             *DiffResult
+	ImplMsgs, ImplSigs, ImplCounts                  string
 	ModelMsgs, ModelReplays, ModelSigs, ModelCounts string
-	ModelErr                              error
-	SigProblems                           []string // oracle findings on the signature stream (C04)
-	NewFiles                              [][]byte // contents of the new build's files in container order
-	OldFiles                              [][]byte
+	ModelErr                                        error
+	SigProblems                                     []string // oracle findings on the signature stream (C04)
+	NewFiles                                        [][]byte // contents of the new build's files in container order
+	OldFiles                                        [][]byte
 }
 
 // sigCanon renders hashes per file as "weak:len,..." in container order, verifying strong hashes
